@@ -58,7 +58,7 @@ ASSUMPTIONS = [
     "measure-directly: both sides are asked for the same named basis (post-processing is only defined then)",
 ]
 PROBES = ["bell:PHI_PLUS", "bell:PSI_PLUS", "bell:PSI_MINUS", "bell:PHI_MINUS", "variant:recv_keep", "variant:recv_keep_info",
-          "variant:recv_keep_post", "variant:recv_rsp", "variant:recv_rsp_info", "variant:recv_measure", "pairs>=2", "other-live-qubits", "nv",
+          "variant:recv_keep_post", "variant:recv_rsp", "variant:recv_rsp_info", "variant:recv_measure", "measure-per-pair-bell-states", "pairs>=2", "other-live-qubits", "nv",
           "expect-off", "correction-due-on-pair>=1", "basis-non-Z"]
 
 VARIANTS = ["recv_keep", "recv_keep_info", "recv_keep_post", "recv_rsp", "recv_measure", "recv_rsp_info"]
@@ -129,8 +129,10 @@ def run(ch: Choices, opts: Dict[str, Any]) -> Dict[str, Any]:
         n_pairs = 4
         sample["pairs"] = 4
         state["mbell"] = BellState(ch.draw(4, "mbell"))
+        # ... or (half of the non-calm runs) every pair its own Bell state: the post-processing of pair k must use pair k's
+        state["mbells"] = [BellState(ch.draw(4, "mbellk")) for _ in range(4)] if (not calm and ch.flag(1, 2, "mixedbell")) else None
         net.qlink.force_outcomes = lambda job, k: ((k >> 1) & 1, k & 1)
-        net.link.bell_override = lambda job, k: state["mbell"]
+        net.link.bell_override = lambda job, k: state["mbell"] if state["mbells"] is None else state["mbells"][k]
         budget = max(budget, 2)
 
     hwc = (lambda: NVHardwareConfig(budget)) if hw == "nv" else (lambda: GenericHardwareConfig(budget))
@@ -343,9 +345,20 @@ def run(ch: Choices, opts: Dict[str, Any]) -> Dict[str, Any]:
             if not expect and (mc, mr) != pair["out"]:
                 raw_mismatch = (k, (mc, mr), pair["out"])
             got[(mc, mr)] += p
+            if expect and state["mbells"] is not None and p > 1e-12:
+                # per-pair form: a possible raw outcome of pair k's Bell state must be mapped to an outcome that Phi+ gives
+                # with the same probability
+                wantk = phi_plus_distribution(basis)
+                if abs(wantk[(mc, mr)] - p) > 1e-9:
+                    raise Violation("state", f"measure|distribution-not-phi-plus|bell={pair['bell'].name}|basis={basis.name}",
+                                    {"form": "per-pair", "pair": k, "raw": pair["out"], "raw_probability": round(p, 6), "reported": (mc, mr),
+                                     "phi_plus_probability": round(wantk[(mc, mr)], 6),
+                                     "bells": [b.name for b in state["mbells"]], **sample})
         if raw_mismatch is not None:
             raise Violation("state", "measure|raw-outcome-altered-with-expectation-off", {"case": raw_mismatch, **sample})
-        if expect:
+        if state["mbells"] is not None:
+            bump(probes, "measure-per-pair-bell-states")
+        if expect and state["mbells"] is None:
             want = phi_plus_distribution(basis)
             if any(abs(got[k2] - want[k2]) > 1e-9 for k2 in got):
                 raise Violation("state", f"measure|distribution-not-phi-plus|bell={state['mbell'].name}|basis={basis.name}",
